@@ -731,6 +731,8 @@ func (vc *VC) callByContract(st *State, spec *FuncSpec, callee *types.Func, sig 
 
 // havocAll forgets every mutable heap (callee without a frame).
 func (vc *VC) havocAll(st *State) {
+	// (the cancel-call counter exists from the start, so that "it only grows" can be stated across the havoc)
+	vc.heapGet(st, "G$called$cancel", "(Array Int Int)", nil)
 	st.havocTok = vc.u.Fresh("hv")
 	known := map[string]bool{}
 	for h := range vc.heapSort {
@@ -746,13 +748,22 @@ func (vc *VC) havocAll(st *State) {
 	}
 	sort.Strings(hs)
 	for _, h := range hs {
-		if vc.immutableHeap(h) {
+		if vc.immutableHeap(h) || h == "Chk" {
+			// (the capacity of a channel never changes)
 			continue
+		}
+		oldH, hadOld := st.heap[h]
+		if strings.HasPrefix(h, "G$called$") {
+			oldH, hadOld = vc.heapGet(st, h, vc.heapSort[h], nil), true
 		}
 		nh := vc.freshSort(h, vc.heapSort[h])
 		st.heap[h] = nh
 		if f := vc.heapWF(h, nh.S, st.alloc); f != "true" {
 			st.assume(f)
+		}
+		if strings.HasPrefix(h, "G$called$") && hadOld {
+			// call counters only grow, whatever an unknown callee does
+			st.assume("(forall ((r!h Int)) (! (>= (select " + nh.S + " r!h) (select " + oldH.S + " r!h)) :pattern ((select " + nh.S + " r!h))))")
 		}
 	}
 }
